@@ -469,8 +469,31 @@ def expr_predicate(w, op, table_hex, kind, text_field, tree_field):
     if tree is None:
         tree = NATIVE_TREES.get(norm_ws(raw)) if w.native or norm_ws(raw) in NATIVE_TREES else None
     if tree is None:
+        if b"|" in raw or b"\\" in raw:
+            # a byte no token of the grammar contains: not a sentence, whatever surrounds it
+            return lambda it: {"E"}
         return None
     return lambda it: evalc(tree, it)
+
+
+def must_reject_search(w, t, op):
+    """a read whose key condition or filter is not a sentence (and has no native registration) and that reaches
+    at least one item cannot succeed"""
+    if op.get("startKey"):
+        return False
+    sch, pool = search_schema(t, op)
+    if sch is None or not pool:
+        return False
+    kp = expr_predicate(w, op, op["table"], "key", "keyCond", "keyTree") if not op.get("scan") else (lambda it: {"T"})
+    fp = expr_predicate(w, op, op["table"], "filter", "filter", "filterTree")
+    try:
+        if kp is not None and any(kp(it) == {"E"} for it in pool):
+            return True
+        if fp is not None and kp is not None and any(kp(it) == {"T"} and fp(it) == {"E"} for it in pool):
+            return True
+    except Exception:
+        return False
+    return False
 
 
 def cond_outcomes(w, op, t, key, tree_field):
@@ -560,6 +583,10 @@ def check_search(w, i, t, op, o, checks):
     s = o["search"]
     if s["count"] != len(s["items"]):
         w.flag(i, "count", "Count %d differs from the number of returned items %d" % (s["count"], len(s["items"])))
+    if ("native" in checks or "search" in checks) and must_reject_search(w, t, op):
+        w.flag(i, "malformed-expression-accepted", "the key condition or filter is not a sentence of the grammar and no native matcher is registered for this "
+               "table, kind and text, yet the read succeeded", impl=o)
+        return
     if op.get("startKey"):
         return
     if op.get("limit"):
